@@ -72,11 +72,39 @@ Definition log_of (db : pbdb) (e s : rid) : option (list ientry) :=
   | None => None
   end.
 
-(* NewBatch: reserve a sequence number (pathbadger.go:729-737, metadata.go:120-139) *)
-Definition new_batch (db : pbdb) (version : N) : pbdb * N :=
-  let seq := match aget version (d_next db) with Some s => s | None => 0 end in
-  (mkDb (d_nodes db) (d_pend db) (d_roots db) (d_updated db) (d_logs db) (d_seq db)
-        (aset version (seq + 1) (d_next db)) (d_fin db), seq).
+(* NewBatch: reserve a sequence number (pathbadger.go:729-737,
+   metadata.go:120-139).  The counter is a uint16 per (version, root type);
+   when it has reached MaxUint16 the reservation is REFUSED ("too many
+   non-finalized roots in version") and the counter stays where it is, so a
+   number is never handed out twice within a version.  (A batch that is
+   abandoned -- NewBatch + Reset, e.g. a rejected Apply -- keeps its number
+   reserved; since /repo d881fca Reset also restores the database pointers the
+   batch had assigned to nodes, which is below this model's level.) *)
+Definition SEQ_MAX : N := 65535.                       (* math.MaxUint16 *)
+Definition next_of (db : pbdb) (version : N) : N :=
+  match aget version (d_next db) with Some s => s | None => 0 end.
+Definition set_next (db : pbdb) (version n : N) : pbdb :=
+  mkDb (d_nodes db) (d_pend db) (d_roots db) (d_updated db) (d_logs db) (d_seq db)
+       (aset version n (d_next db)) (d_fin db).
+Definition new_batch (db : pbdb) (version : N) : option (pbdb * N) :=
+  let seq := next_of db version in
+  if seq =? SEQ_MAX then None                          (* metadata.go:133-135 *)
+  else Some (set_next db version (seq + 1), seq).
+
+(* the variant whose exhaustion check never fires: the uint16 counter wraps *)
+Definition new_batch_wrapping (db : pbdb) (version : N) : option (pbdb * N) :=
+  let seq := next_of db version in
+  Some (set_next db version ((seq + 1) mod 65536), seq).
+
+(* [n] reservations that are abandoned; returns how many were granted *)
+Fixpoint burn_nat (nb : pbdb -> N -> option (pbdb * N)) (n : nat) (db : pbdb) (version : N) : pbdb * N :=
+  match n with
+  | O => (db, 0)
+  | S n' => match nb db version with
+            | Some (db', _) => let (db'', g) := burn_nat nb n' db' version in (db'', g + 1)
+            | None => burn_nat nb n' db version
+            end
+  end.
 
 (* what a batch carries at Commit *)
 Record batch := mkBatch {
@@ -176,24 +204,31 @@ Definition get_writelog (db : pbdb) (s e : rid) : gres :=
 (* ---------- correspondence runner: a trace of database calls ---------- *)
 Inductive tcall :=
 | TCommit (b : batch)              (* NewBatch + Commit *)
+| TBurn (version : N) (count : N)  (* count times NewBatch + Reset *)
 | TFinalize (version : N) (pick : rid)
 | TGet (s e : rid).
 
 Inductive tobs :=
 | OSeq (seq : N)                   (* the sequence number the batch got *)
+| ORefused                         (* NewBatch: too many non-finalized roots *)
+| OBurn (granted : N)              (* how many of the reservations were granted *)
 | ODone
 | OGet (r : gres).
 
-Fixpoint run_trace (db : pbdb) (t : list tcall) : list tobs :=
+Fixpoint run_trace_with (nb : pbdb -> N -> option (pbdb * N)) (db : pbdb) (t : list tcall) : list tobs :=
   match t with
   | [] => []
   | TCommit b :: r =>
-      let (db1, seq) := new_batch db (fst (b_end b)) in
-      let (db2, _) := commit db1 seq b in
-      OSeq seq :: run_trace db2 r
-  | TFinalize v pick :: r => ODone :: run_trace (finalize db v pick) r
-  | TGet s e :: r => OGet (get_writelog db s e) :: run_trace db r
+      match nb db (fst (b_end b)) with
+      | Some (db1, seq) => let (db2, _) := commit db1 seq b in OSeq seq :: run_trace_with nb db2 r
+      | None => ORefused :: run_trace_with nb db r
+      end
+  | TBurn v n :: r =>
+      let (db1, g) := burn_nat nb (N.to_nat n) db v in OBurn g :: run_trace_with nb db1 r
+  | TFinalize v pick :: r => ODone :: run_trace_with nb (finalize db v pick) r
+  | TGet s e :: r => OGet (get_writelog db s e) :: run_trace_with nb db r
   end.
+Definition run_trace := run_trace_with new_batch.
 
 Definition gres_eqb (a b : gres) : bool :=
   match a, b with
@@ -205,6 +240,8 @@ Definition gres_eqb (a b : gres) : bool :=
 Definition tobs_eqb (a b : tobs) : bool :=
   match a, b with
   | OSeq x, OSeq y => x =? y
+  | OBurn x, OBurn y => x =? y
+  | ORefused, ORefused => true
   | ODone, ODone => true
   | OGet x, OGet y => gres_eqb x y
   | _, _ => false
